@@ -6,7 +6,7 @@
    commas and the closing bracket; EnumScalar - RFC 8259 string, number without exponent, true, false, null
    (Spec/JsonGrammar.v). *)
 From Coq Require Import List NArith Bool.
-From JS Require Import Base.Res Spec.JsonGrammar Model.EnumParse Proofs.EnumProofs.
+From JS Require Import Base.Res Spec.JsonGrammar Model.EnumParse Proofs.EnumProofs Proofs.JsonValueProofs Proofs.TotalProofs.
 Import ListNotations.
 
 (* whatever Check() accepts is an enum text; Values() lists its scalars in order; no two of them denote the same
@@ -25,6 +25,17 @@ Print Assumptions C17_lex_sound.
 Theorem C17_scalar : forall s lit rest, scalar s = Some (lit, rest) -> s = lit ++ rest /\ EnumScalar lit.
 Proof. exact scalar_spec. Qed.
 Print Assumptions C17_scalar.
+
+(* the converse: every enum text whose scalars are pairwise different is accepted and listed back.  LexD is the grammar
+   of LexOf with its two reading conventions explicit: a scalar is followed by something that cannot extend it (not a
+   digit or a decimal point), a block annotation ends at its first closing mark *)
+Theorem C17_complete : forall w r lits, ws w -> LexD r (toks_of lits) -> distinct (map key_of lits) = true ->
+  eparse (w ++ 91%N :: r) = Ok lits.
+Proof. exact eparse_complete. Qed.
+Print Assumptions C17_complete.
+(* and the parser answers for every byte string (C02) *)
+Theorem C17_total : forall s, no_panic (eparse s).
+Proof. exact eparse_total. Qed.
 
 (* non-vacuity: numeric-looking strings, an escape equal to another entry is a duplicate, annotations *)
 Local Open Scope N_scope.
